@@ -635,7 +635,7 @@ def signature(kind: dict, ident: str) -> str:
     return f"{api}:{ctx}:{v}"
 
 
-def judge(rep: Report, items: list[dict], name: str) -> None:
+def judge(rep: Report, items: list[dict], name: str, selftest_too: bool = False) -> None:
     if not items:
         return
     verdicts, st, tr = validate([it["trace"] for it in items], name,
@@ -643,6 +643,8 @@ def judge(rep: Report, items: list[dict], name: str) -> None:
     rep.states += st
     rep.transitions += tr
     rep.traces_validated += len(items)
+    if selftest_too:
+        selftest(rep, items, verdicts)
     for it, v in zip(items, verdicts):
         scn = it["scn"]
         stats = v["stats"]
@@ -665,7 +667,83 @@ def judge(rep: Report, items: list[dict], name: str) -> None:
                       f"on a {scn['cols']}x{scn['rows']} {scn['ident']} screen ({scn.get('source')}); "
                       f"first failing event #{first['at']}: {first['v']} {str(first['info'])[:300]}; "
                       f"mechanism: {v['mech']['v']} @#{v['mech']['at']}")
-            rep.violation(sig, detail, scn)
+            # shortest replay: the history up to the event at which this clause failed
+            at = 0
+            if k["v"] == first["v"] and k["ctx"] == first["ctx"]:
+                at = first["at"]
+            elif k["v"] == v["mech"]["v"] and k["ctx"] == v["mech"]["ctx"]:
+                at = v["mech"]["at"]
+            short = dict(scn, ops=scn["ops"][:at]) if 0 < at < len(scn["ops"]) else scn
+            rep.violation(sig, detail, short)
+
+
+def corrupted(trace: dict) -> list[tuple[str, dict]]:
+    """Tampered copies of a history that was accepted: each must be rejected by the Trace spec."""
+    out = []
+    gfx = trace["gfx"]
+
+    def copy():
+        return json.loads(json.dumps(trace))
+
+    def is_del(t):
+        return t["k"] == "kitty" and gfx[t["x"]]["a"] == "d" and gfx[t["x"]]["d"] in ("A", "Z")
+
+    def is_tx(t):
+        return t["k"] == "iterm" or (t["k"] == "kitty" and gfx[t["x"]]["a"] == "T")
+
+    evs = trace["events"]
+    for i, e in enumerate(evs):
+        if e["op"] == "redraw" and any(is_del(t) for t in e["toks"]) and any(is_tx(t) for t in e["toks"]):
+            c = copy()
+            c["events"][i]["toks"] = [t for t in e["toks"] if not is_del(t)]
+            out.append(("deletions-removed", c))
+            break
+    for i, e in enumerate(evs):
+        if e["op"] == "redraw" and any(is_tx(t) for t in e["toks"]):
+            c = copy()
+            toks = c["events"][i]["toks"]
+            j = next(k for k, t in enumerate(toks) if is_tx(t))
+            k = max(k for k in range(j) if toks[k]["k"] == "cup")
+            toks[k]["n"] = toks[k]["n"] + 1 if max(toks[k]["n"], 1) < trace["rows"] else toks[k]["n"] - 1
+            out.append(("image-line-moved", c))
+            c = copy()
+            c["events"][i]["toks"] = c["events"][i]["toks"][:-1]
+            out.append(("sync-end-removed", c))
+            c = copy()
+            c["events"][i]["lay"] = {"k": "pile", "items": [{"n": trace["rows"], "c": {"k": "txt", "ch": 120}}]}
+            out.append(("layout-replaced", c))
+            break
+    for i, e in enumerate(evs):
+        if e["op"] in ("start", "clear") and e["toks"]:
+            c = copy()
+            c["events"][i]["toks"] = [t for t in e["toks"] if not is_del(t)]
+            out.append(("delete-all-removed", c))
+            break
+    return out
+
+
+def selftest(rep: Report, items: list[dict], verdicts: list[dict]) -> None:
+    """The judge must reject tampered traces (otherwise its acceptance means nothing)."""
+    pick = None
+    for it, v in zip(items, verdicts):
+        if v["verdict"]["v"] == "ok" and v["mech"]["v"] == "ok" and not v["kinds"] and v["stats"]["deletes"] > 0 \
+                and v["stats"]["implied"] > 0 and it["trace"]["ident"] in ("kitty", "konsole"):
+            cs = corrupted(it["trace"])
+            if len(cs) >= 5:
+                pick = cs
+                break
+    if pick is None:
+        rep.notes.append("self-test skipped: no accepted history with deletions and images in this run")
+        return
+    vs, st, tr = validate([c for _, c in pick], "c18self", batch=10, parallel=1)
+    rep.states += st
+    rep.transitions += tr
+    res = {}
+    for (label, _), v in zip(pick, vs):
+        res[label] = v["verdict"]["v"] if v["verdict"]["v"] != "ok" else "mech:" + v["mech"]["v"]
+        if v["verdict"]["v"] == "ok" and v["mech"]["v"] == "ok":
+            raise MachineryError(f"self-test: the Trace spec accepted a tampered history ({label})")
+    rep.extra["selftest_corrupted_traces_rejected"] = res
 
 
 def main(rep: Report, replay: dict | None) -> None:
@@ -729,7 +807,7 @@ def main(rep: Report, replay: dict | None) -> None:
     rep.extra["t_seeded"] = round(time.time() - t0, 1)
 
     t0 = time.time()
-    judge(rep, items, "c18")
+    judge(rep, items, "c18", selftest_too=True)
     rep.extra["t_judge"] = round(time.time() - t0, 1)
     th.join()
     if mc_err:
